@@ -4052,8 +4052,8 @@ static TPM_RESULT TPM_GetCapability_CapProperty(TPM_STORE_BUFFER *capabilityResp
       case TPM_CAP_PROP_INPUT_BUFFER: /* uint32_t. The size of the TPM input and output buffers in
 					 bytes. */
 	printf(" TPM_GetCapability_CapProperty: TPM_CAP_PROP_INPUT_BUFFER %u\n",
-	       TPM_BUFFER_MAX);
-	rc = TPM_Sbuffer_Append32(capabilityResponse, TPM_BUFFER_MAX);
+	       TPM12_GetBufferSize());
+	rc = TPM_Sbuffer_Append32(capabilityResponse, TPM12_GetBufferSize());
 	break;
      default:
 	printf("TPM_GetCapability_CapProperty: Error, illegal capProperty %08x\n", capProperty);
